@@ -10,6 +10,7 @@ bool opt_fpic;
 
 static FileType opt_x;
 static StringArray opt_include;
+static StringArray opt_idirafter;
 static bool opt_E;
 static bool opt_M;
 static bool opt_MD;
@@ -119,8 +120,6 @@ static void parse_args(int argc, char **argv) {
     if (take_arg(argv[i]))
       if (!argv[++i])
         usage(1);
-
-  StringArray idirafter = {};
 
   for (int i = 1; i < argc; i++) {
     if (!strcmp(argv[i], "-###")) {
@@ -283,7 +282,7 @@ static void parse_args(int argc, char **argv) {
     }
 
     if (!strcmp(argv[i], "-idirafter")) {
-      strarray_push(&idirafter, argv[i++]);
+      strarray_push(&opt_idirafter, argv[++i]);
       continue;
     }
 
@@ -336,9 +335,6 @@ static void parse_args(int argc, char **argv) {
 
     strarray_push(&input_paths, argv[i]);
   }
-
-  for (int i = 0; i < idirafter.len; i++)
-    strarray_push(&include_paths, idirafter.data[i]);
 
   if (input_paths.len == 0)
     error("no input files");
@@ -705,6 +701,8 @@ int main(int argc, char **argv) {
 
   if (opt_cc1) {
     add_default_include_paths(argv[0]);
+    for (int i = 0; i < opt_idirafter.len; i++)
+      strarray_push(&include_paths, opt_idirafter.data[i]);
     cc1();
     return 0;
   }
